@@ -15,29 +15,31 @@ Definition is_plain (a : act) : bool := match a with AStoreP => true | _ => fals
 Definition flatten (prims : list (list act)) (l : list act) : list act :=
   flat_map (fun a => match a with ACall i => nth i prims [AStoreP] | x => [x] end) l.
 
-(* every plain store is followed, in program order, by a barrier *)
+(* every store is through a volatile lvalue (or is explicit_bzero).
+   Round 4: the first version of this predicate also accepted a plain store followed by a barrier.  That is not what gcc does
+   for an object that does not escape: built with -O2 -flto, the plain 64-bit word stores of mem_prim_set in front of
+   _mm_mfence() were removed when the caller freed the buffer right after memset_s (harness/erase_client.c shows it; repaired
+   by making the word stores volatile).  A barrier orders and keeps accesses to memory other code may see; it does not keep
+   stores to a dying private object. *)
 Fixpoint protected (l : list act) : bool :=
   match l with
   | [] => true
-  | a :: t => (if is_plain a then existsb is_barrier t else true) && protected t
+  | a :: t => negb (is_plain a) && protected t
   end.
 
-(* abstract optimiser: it may delete the actions selected by [drop], but only plain stores that no
-   barrier follows (a store to a dying object that nothing can observe afterwards) *)
+(* abstract optimiser: it may delete the actions selected by [drop], but only plain stores *)
 Fixpoint opt (drop : list bool) (l : list act) : list act :=
   match l, drop with
-  | a :: t, d :: ds => if d && is_plain a && negb (existsb is_barrier t) then opt ds t else a :: opt ds t
+  | a :: t, d :: ds => if d && is_plain a then opt ds t else a :: opt ds t
   | l, [] => l
   | [], _ => []
   end.
 Theorem protected_survives : forall l, protected l = true -> forall drop, opt drop l = l.
 Proof.
   induction l as [|a t IH]; intros Hp drop; destruct drop as [|d ds]; cbn; auto.
-  cbn in Hp. apply andb_prop in Hp. destruct Hp as [Ha Ht].
-  destruct (is_plain a) eqn:E.
-  - rewrite Ha. rewrite andb_false_r. f_equal. apply IH; auto.
-  - rewrite andb_false_r. cbn. f_equal. apply IH; auto.
+  cbn in Hp. apply andb_prop in Hp. destruct Hp as [Ha Ht]. apply negb_true_iff in Ha. rewrite Ha, andb_false_r.
+  f_equal. apply IH; auto.
 Qed.
-(* and an unprotected shape can lose a store *)
-Lemma unprotected_example : opt [true] [AStoreP] = [].
-Proof. reflexivity. Qed.
+(* an unprotected shape can lose a store, barrier or not *)
+Lemma unprotected_example : opt [true] [AStoreP] = [] /\ opt [true; false] [AStoreP; ABarrier] = [ABarrier].
+Proof. split; reflexivity. Qed.
